@@ -533,9 +533,12 @@ pub mod frames {
 
     use super::*;
 
+    /// `client_host`: the host the association belongs to (the peer of its control connection), if known: the
+    /// relay takes datagrams from that host only (RFC 1928, section 7).
     pub async fn setup_udp_session(
         local: SocketAddr,
         remote: Option<SocketAddr>,
+        client_host: Option<std::net::IpAddr>,
     ) -> IoResult<(SocketAddr, FrameIO)> {
         let socket = UdpSocket::bind(local).await?;
         let bind_addr = socket.local_addr()?;
@@ -546,7 +549,7 @@ pub mod frames {
         Ok((
             bind_addr,
             (
-                SocksFrameReader::new(remote, socket.clone()),
+                SocksFrameReader::new(remote, client_host, socket.clone()),
                 SocksFrameWriter::new(socket),
             ),
         ))
@@ -555,11 +558,21 @@ pub mod frames {
     struct SocksFrameReader {
         socket: Arc<UdpSocket>,
         remote: Option<SocketAddr>,
+        client_host: Option<std::net::IpAddr>,
     }
 
     impl SocksFrameReader {
-        fn new(remote: Option<SocketAddr>, socket: Arc<UdpSocket>) -> Box<Self> {
-            Self { remote, socket }.into()
+        fn new(
+            remote: Option<SocketAddr>,
+            client_host: Option<std::net::IpAddr>,
+            socket: Arc<UdpSocket>,
+        ) -> Box<Self> {
+            Self {
+                remote,
+                client_host,
+                socket,
+            }
+            .into()
         }
     }
 
@@ -570,6 +583,17 @@ pub mod frames {
                 let mut buf = Frame::new();
                 let (_sz, addr) = buf.recv_from(&self.socket).await?;
                 match self.remote {
+                    // The first datagram tells which port the client sends from - the client, not whoever gets a
+                    // datagram to the relay port first: a stranger's datagram was forwarded for him on the
+                    // strength of another client's login, and took the association away from its owner.
+                    None if self.client_host.map_or(false, |h| {
+                        crate::common::try_map_v4_addr(addr).ip()
+                            != crate::common::try_map_v4_addr(SocketAddr::new(h, 0)).ip()
+                    }) =>
+                    {
+                        tracing::debug!("socks udp: datagram from {} dropped, not the client's host", addr);
+                        continue;
+                    }
                     None => {
                         self.socket.connect(addr).await?;
                         self.remote = Some(addr);
